@@ -287,11 +287,91 @@ func escapePaths(v ssa.Value, root *ssa.Alloc, path []int) ([][]int, bool) {
 			if handedToReadOnly(r, v) {
 				continue
 			}
+			// handed to a repo method that writes some of its fields and nothing else (a collector's
+			// `add`): only those fields become opaque, the others keep what was stored into them
+			if fields, ok := handedToFieldWriter(r, v); ok {
+				for _, f := range fields {
+					out = append(out, append(append([]int{}, path...), f))
+				}
+				continue
+			}
 			if !escapeHere() {
 				return nil, false
 			}
 		}
 	}
+	return out, true
+}
+
+// handedToFieldWriter: instruction r is a static call of a repo function that receives the
+// address v as one argument and uses the corresponding parameter only to read fields and to store
+// into some of them (the parameter is not passed on, stored, or written as a whole). Returns the
+// indices of the fields it may store into.
+func handedToFieldWriter(r ssa.Instruction, v ssa.Value) ([]int, bool) {
+	call, ok := r.(*ssa.Call)
+	if !ok {
+		return nil, false
+	}
+	g := call.Common().StaticCallee()
+	if g == nil || g.Blocks == nil || call.Common().Value == v || g.Pkg == nil {
+		return nil, false
+	}
+	idx := -1
+	for i, av := range call.Common().Args {
+		if av == v {
+			if idx >= 0 {
+				return nil, false
+			}
+			idx = i
+		}
+	}
+	if idx < 0 || idx >= len(g.Params) {
+		return nil, false
+	}
+	prm := g.Params[idx]
+	refs := prm.Referrers()
+	if refs == nil {
+		return nil, true
+	}
+	written := map[int]bool{}
+	for _, u := range *refs {
+		switch x := u.(type) {
+		case *ssa.DebugRef:
+		case *ssa.FieldAddr:
+			frefs := x.Referrers()
+			if frefs == nil {
+				continue
+			}
+			for _, fu := range *frefs {
+				switch y := fu.(type) {
+				case *ssa.DebugRef:
+				case *ssa.UnOp:
+					if y.Op != token.MUL {
+						return nil, false
+					}
+				case *ssa.Store:
+					if y.Addr != ssa.Value(x) {
+						return nil, false
+					}
+					// a collector: what it writes is a list it appends to (a lazily filled cache field is
+					// left to the rules that verify the accessors)
+					if _, isSlice := y.Val.Type().Underlying().(*types.Slice); !isSlice {
+						return nil, false
+					}
+					written[x.Field] = true
+				default:
+					return nil, false
+				}
+			}
+		default:
+			return nil, false
+		}
+	}
+	var out []int
+	for f := range written {
+		out = append(out, f)
+	}
+	sort.Ints(out)
 	return out, true
 }
 
@@ -562,6 +642,36 @@ func (c *Ctx) term(v ssa.Value) *Term {
 		tup := c.Term(x.Tuple)
 		if tup.Kind == "tuple" && x.Index < len(tup.Args) {
 			return tup.Args[x.Index]
+		}
+		// a float result of a one-block, effect-free repo function with several results that no rule
+		// names (`cpu, mem := usage.percent()`): the expression it returns over the arguments
+		if call, ok := x.Tuple.(*ssa.Call); ok && isFloat64(x.Type()) {
+			if f := call.Common().StaticCallee(); f != nil && c.p.keepCalls != nil && !c.p.keepCalls[f] && c.p.inRepo(f) && f.Blocks != nil && len(f.Blocks) == 1 && len(f.FreeVars) == 0 && c.depth < c.maxD && f != c.fn {
+				if r, ok := f.Blocks[0].Instrs[len(f.Blocks[0].Instrs)-1].(*ssa.Return); ok && x.Index < len(r.Results) {
+					pure := true
+					for _, in := range f.Blocks[0].Instrs {
+						switch y := in.(type) {
+						case *ssa.Store:
+							if _, isAlloc := baseOfAddr(y.Addr).(*ssa.Alloc); !isAlloc {
+								pure = false
+							}
+						case *ssa.Defer, *ssa.Go, *ssa.Panic, *ssa.MapUpdate, *ssa.Send:
+							pure = false
+						case *ssa.Call:
+							if _, isB := y.Common().Value.(*ssa.Builtin); !isB {
+								pure = false
+							}
+						}
+					}
+					if pure {
+						args := make([]*Term, len(call.Common().Args))
+						for i, a := range call.Common().Args {
+							args[i] = c.Term(a)
+						}
+						return c.child(f, call, args).Term(r.Results[x.Index])
+					}
+				}
+			}
 		}
 		// range-over-map iteration: next(range m) → ok, key, val
 		if nx, ok := x.Tuple.(*ssa.Next); ok && !nx.IsString {
@@ -1623,6 +1733,17 @@ func (c *Ctx) formula(v ssa.Value) *Formula {
 			}
 			ch := c.child(f, x, args)
 			return ch.returnFormula(0)
+		}
+		// a predicate handed in as a function value that an inlined context binds to a repo function
+		// (`countWhere(pods, podIsSacred)`): read as that function
+		if x.Common().StaticCallee() == nil && !x.Common().IsInvoke() && isBool(x.Type()) {
+			if fv, bound := c.bind[x.Common().Value]; bound && fv.Kind == "func" && fv.Fn != nil && len(fv.Fn.FreeVars) == 0 && c.inlinable(fv.Fn) && !c.p.noExpand[fv.Fn] {
+				args := make([]*Term, len(x.Common().Args))
+				for i, a := range x.Common().Args {
+					args[i] = c.Term(a)
+				}
+				return c.child(fv.Fn, x, args).returnFormula(0)
+			}
 		}
 		return Atom(c.Term(v)) // not expanded here: the call is its own atom
 	case *ssa.Extract:
